@@ -214,6 +214,42 @@ pub fn tap_c09(bytes: &[u8], lib_key: Option<&HMACKey>, raw_key: Option<&[u8]>) 
             }
         }
     }
+    for (k, d) in tap_not_ignore_validation(bytes, lib_key, raw_key) {
+        out.push((format!("C09/{}", k), d));
+    }
+    out
+}
+
+/// With the ordering rule switched off (`not_ignore`) every wire attribute is returned, and with validation and
+/// a key every verifiable attribute that is returned must have been verified: a message that decodes under
+/// (key, validation, not_ignore) must not contain an integrity attribute / FINGERPRINT whose first occurrence
+/// does not verify independently, wherever it sits.
+pub fn tap_not_ignore_validation(bytes: &[u8], lib_key: Option<&HMACKey>, raw_key: Option<&[u8]>) -> Vec<(String, String)> {
+    let mut out = vec![];
+    let (Some(lk), Some(rk)) = (lib_key, raw_key) else { return out };
+    let Ok(p) = wire::parse(bytes) else { return out };
+    let o = Opts { key: true, validation: true, unknown_data: false, not_ignore: true };
+    let DecodeOutcome::Ok(dec) = libtap::decode(&libtap::decoder(o, Some(lk)), bytes) else { return out };
+    for typ in [wire::A_MI, wire::A_MI256, wire::A_FINGERPRINT] {
+        let Some(i) = p.find_idx(typ) else { continue };
+        if !dec.attr_types.contains(&typ) {
+            continue;
+        }
+        let a = &p.attrs[i];
+        let text = wire::covered_text(bytes, &p, i);
+        let ok = match typ {
+            wire::A_MI => a.value == crate::crypto::hmac_sha1(rk, &text),
+            wire::A_MI256 => a.value == crate::crypto::hmac_sha256(rk, &text),
+            _ => a.value == (crate::crypto::crc32(&text) ^ wire::FP_XOR).to_be_bytes(),
+        };
+        if !ok {
+            let adm = wire::admitted(&p.types());
+            out.push((
+                format!("not-ignore-validation-passed-with-unverified-attribute({:#06x},{})", typ, if adm[i] { "admissible-position" } else { "inadmissible-position" }),
+                format!("wire types {:04x?}: decode(with_key, with_validation, not_ignore) succeeded and returned attribute {:#06x} whose value does not verify", p.types(), typ),
+            ));
+        }
+    }
     out
 }
 
@@ -1017,10 +1053,17 @@ fn c03_variants(bytes: &[u8]) -> Vec<String> {
             }
         }
         // every (lead, trail) pair of the "twice-encoded" family at the start, in the middle and at the end
-        for pos in [0usize, (a.value.len() - lo) / 2, 1000] {
-            for val in 6..6 + 256 {
+        // (leads U+00C2, U+00C3: every trail; U+00E2, U+00FD and the middle position: a sample of trails)
+        for pos in [0usize, 1000] {
+            for val in 6..6 + 128 {
                 v.push(format!("corrupt=utf8 idx={} pos={} val={}", si, pos, val));
             }
+            for val in (6 + 128..6 + 256).step_by(9) {
+                v.push(format!("corrupt=utf8 idx={} pos={} val={}", si, pos, val));
+            }
+        }
+        for val in (6..6 + 256).step_by(11) {
+            v.push(format!("corrupt=utf8 idx={} pos={} val={}", si, (a.value.len() - lo) / 2, val));
         }
     }
     v
@@ -1028,102 +1071,139 @@ fn c03_variants(bytes: &[u8]) -> Vec<String> {
 
 pub fn extra_c03(spec: &PropSpec, args: &CheckArgs) -> ExtraResult {
     let thorough = args.tier == "thorough";
-    let n_runs: u64 = if thorough { 6000 } else { 500 };
-    let merged: std::sync::Mutex<ExtraResult> = std::sync::Mutex::new(ExtraResult::default());
-    let next = std::sync::atomic::AtomicU64::new(0);
-    let shapes: std::sync::Mutex<BTreeMap<u64, usize>> = std::sync::Mutex::new(BTreeMap::new());
-    // a calm profile: conversations without random faults, so that the swept message is the only damage
+    let n_runs: u64 = if thorough { 20000 } else { 2000 };
+    let max_msgs: usize = if thorough { 2500 } else { 160 };
+    // a calm profile: conversations with server variety but without random network/timer faults, so that
+    // the swept message is the only damage
     let mut calm = spec.clone();
-    calm.profile.p_perfect = 1000;
-    calm.profile.n_inj = (0, 0);
+    {
+        let p = &mut calm.profile;
+        p.p_perfect = 0;
+        p.p_swarm_off = 0;
+        p.n_inj = (0, 0);
+        p.p_corrupt = 0;
+        p.p_splice = 0;
+        p.p_drop = 0;
+        p.p_dup = 0;
+        p.p_delay = 0;
+        p.p_delay_huge = 0;
+        p.p_timer_late = 0;
+        p.p_timer_very_late = 0;
+        p.p_timer_early = 0;
+        p.p_srv_silent = 0;
+        p.p_srv_integ = 0;
+        p.p_srv_fp = 0;
+        p.p_srv_hostile = 0;
+        p.p_srv_dup = 0;
+        p.p_srv_think = 0;
+        p.p_srv_code = 200;
+        p.p_srv_lt = 300;
+        p.p_srv_more = 700;
+        p.p_align = 0;
+        p.p_long = 0;
+    }
     calm.opts = world::RunOpts::default();
+    // phase 1 (sequential, in run-index order, hence deterministic): pick the messages to sweep
+    struct Cand {
+        run: u64,
+        entries: Vec<(String, String)>,
+        step: usize,
+        origin: Origin,
+        bytes: Vec<u8>,
+        shape: u64,
+        cfg_pw: Vec<u8>,
+        lib_key: Option<HMACKey>,
+    }
+    world::install_quiet_panic_hook();
+    let mut cands: Vec<Cand> = vec![];
+    let mut shapes: HashSet<u64> = HashSet::new();
+    let mut run = 0u64;
+    while run < n_runs && cands.len() < max_msgs {
+        let (l, entries) = crate::runner::run_one(&calm, args.seed ^ 0xC03C03, run);
+        run += 1;
+        if l.panicked().is_some() {
+            continue;
+        }
+        let lib_key = match &l.cfg.mech {
+            Mech::ShortTerm(_) => libtap::short_term_key(&l.cfg.password),
+            Mech::LongTerm => libtap::long_term_key(&l.cfg.user, &l.cfg.realm, &l.cfg.password, true),
+            Mech::None => None,
+        };
+        for st in &l.steps {
+            let Call::Recv { bytes, origin, fault } = &st.call else { continue };
+            if !matches!(origin, Origin::S2c(..)) || !fault.is_empty() || st.phase == Phase::Probe {
+                continue;
+            }
+            let Ok(p) = wire::parse(bytes) else { continue };
+            if p.class < 2 {
+                continue;
+            }
+            let state = l.steps.get(st.idx.saturating_sub(1)).map(|s| s.snap.cred.split(" params").next().unwrap_or("").to_string()).unwrap_or_default();
+            let shape = hash_of(&(p.types(), p.class, p.error_code(), state, l.cfg.fp, l.cfg.is_reliable()));
+            if !shapes.insert(shape) || cands.len() >= max_msgs {
+                continue;
+            }
+            cands.push(Cand { run: run - 1, entries: entries.clone(), step: st.idx, origin: origin.clone(), bytes: bytes.clone(), shape, cfg_pw: l.cfg.pw().into_bytes(), lib_key: lib_key.clone() });
+        }
+    }
+    // phase 2 (parallel): sweep
+    let merged: std::sync::Mutex<ExtraResult> = std::sync::Mutex::new(ExtraResult::default());
+    let nthreads = args.threads.max(1);
+    let calm_ref = &calm;
     std::thread::scope(|sc| {
-        for _ in 0..args.threads.max(1) {
-            sc.spawn(|| {
+        for ch in cands.chunks((cands.len() + nthreads - 1) / nthreads.max(1)).map(|c| c.iter().collect::<Vec<_>>()) {
+            let merged = &merged;
+            sc.spawn(move || {
                 world::install_quiet_panic_hook();
                 let mut r = ExtraResult::default();
-                loop {
-                    let run = next.fetch_add(1, std::sync::atomic::Ordering::Relaxed);
-                    if run >= n_runs {
-                        break;
-                    }
-                    let (l, entries) = crate::runner::run_one(&calm, args.seed ^ 0xC03C03, run);
-                    if l.panicked().is_some() {
-                        continue;
-                    }
-                    let lib_key = match &l.cfg.mech {
-                        Mech::ShortTerm(_) => libtap::short_term_key(&l.cfg.password),
-                        Mech::LongTerm => libtap::long_term_key(&l.cfg.user, &l.cfg.realm, &l.cfg.password, true),
-                        Mech::None => None,
-                    };
-                    for st in &l.steps {
-                        let Call::Recv { bytes, origin, fault } = &st.call else { continue };
-                        let Origin::S2c(n, c) = origin else { continue };
-                        if !fault.is_empty() || st.phase == Phase::Probe {
+                for c in ch {
+                    let Origin::S2c(n, cc) = c.origin else { continue };
+                    *r.counters.entry("c03_sweep_messages".into()).or_insert(0) += 1;
+                    for var in c03_variants(&c.bytes) {
+                        let kv = crate::plan::parse_kv(&var);
+                        let mut b2 = c.bytes.clone();
+                        if world::apply_corruption(&mut b2, &kv, &c.cfg_pw).is_none() {
                             continue;
                         }
-                        let Ok(p) = wire::parse(bytes) else { continue };
-                        if p.class < 2 {
-                            continue;
-                        }
-                        let state = l.steps.get(st.idx.saturating_sub(1)).map(|s| s.snap.cred.split(" params").next().unwrap_or("").to_string()).unwrap_or_default();
-                        let shape = hash_of(&(p.types(), p.class, p.error_code(), state, l.cfg.fp, l.cfg.is_reliable()));
-                        {
-                            let mut g = shapes.lock().unwrap();
-                            let cnt = g.entry(shape).or_insert(0);
-                            if *cnt >= 2 {
-                                continue;
+                        r.evaluations += 1;
+                        let kind = var.split_whitespace().next().unwrap_or("").to_string();
+                        *r.counters.entry(format!("c03_sweep_{}", kind.replace("corrupt=", ""))).or_insert(0) += 1;
+                        let mut found: Vec<(String, String)> = tap_c03(&b2, c.lib_key.as_ref(), c.run * 31 + c.step as u64);
+                        // exact re-execution with this one delivery replaced
+                        let over = format!("n={} c={} {}", n, cc, var);
+                        let mut e2 = c.entries.clone();
+                        e2.push(("override".to_string(), over));
+                        let l2 = crate::runner::replay_entries(calm_ref, &e2);
+                        let outcome = match l2.panicked() {
+                            Some((idx, msg)) => {
+                                let loc = msg.rsplit(" at ").next().unwrap_or("?").to_string();
+                                let call = match &l2.steps[idx].call {
+                                    Call::Recv { .. } => "on_buffer_recv",
+                                    Call::SendRequest { .. } => "send_request",
+                                    Call::SendIndication { .. } => "send_indication",
+                                    Call::Timeout { .. } => "on_timeout",
+                                    Call::Restart => "restart",
+                                };
+                                // the replayed run stops at the client's panic: report under that key only
+                                found.clear();
+                                found.push((format!("C03/panic-in-client({},{})", call, loc), format!("step {}: {} after {}", idx, msg, var)));
+                                9u8
                             }
-                            *cnt += 1;
-                        }
-                        *r.counters.entry("c03_sweep_messages".into()).or_insert(0) += 1;
-                        for var in c03_variants(bytes) {
-                            let kv = crate::plan::parse_kv(&var);
-                            let mut b2 = bytes.clone();
-                            let key = l.cfg.pw().into_bytes();
-                            if world::apply_corruption(&mut b2, &kv, &key).is_none() {
-                                continue;
+                            None => {
+                                let st2 = l2.steps.iter().find(|s| matches!(&s.call, Call::Recv { origin: o, .. } if *o == c.origin));
+                                match st2.map(|s| (&s.result, s.events.first())) {
+                                    Some((CallResult::Ok, Some(Ev::Received(_)))) => 0,
+                                    Some((CallResult::Ok, Some(Ev::Retry(_)))) => 1,
+                                    Some((CallResult::Ok, Some(Ev::Failed(..)))) => 2,
+                                    Some((CallResult::Err(_), _)) => 3,
+                                    _ => 4,
+                                }
                             }
-                            r.evaluations += 1;
-                            let kind = var.split_whitespace().next().unwrap_or("").to_string();
-                            *r.counters.entry(format!("c03_sweep_{}", kind.replace("corrupt=", ""))).or_insert(0) += 1;
-                            let mut found: Vec<(String, String)> = tap_c03(&b2, lib_key.as_ref(), run * 31 + st.idx as u64);
-                            // exact re-execution with this one delivery replaced
-                            let over = format!("n={} c={} {}", n, c, var);
-                            let mut e2 = entries.clone();
-                            e2.push(("override".to_string(), over));
-                            let l2 = crate::runner::replay_entries(&calm, &e2);
-                            let outcome = match l2.panicked() {
-                                Some((idx, msg)) => {
-                                    let loc = msg.rsplit(" at ").next().unwrap_or("?").to_string();
-                                    let call = match &l2.steps[idx].call {
-                                        Call::Recv { .. } => "on_buffer_recv",
-                                        Call::SendRequest { .. } => "send_request",
-                                        Call::SendIndication { .. } => "send_indication",
-                                        Call::Timeout { .. } => "on_timeout",
-                                        Call::Restart => "restart",
-                                    };
-                                    // the replayed run stops at the client's panic: report under that key only
-                                    found.clear();
-                                    found.push((format!("C03/panic-in-client({},{})", call, loc), format!("step {}: {} after {}", idx, msg, var)));
-                                    9u8
-                                }
-                                None => {
-                                    let st2 = l2.steps.iter().find(|s| matches!(&s.call, Call::Recv { origin: o, .. } if o == origin));
-                                    match st2.map(|s| (&s.result, s.events.first())) {
-                                        Some((CallResult::Ok, Some(Ev::Received(_)))) => 0,
-                                        Some((CallResult::Ok, Some(Ev::Retry(_)))) => 1,
-                                        Some((CallResult::Ok, Some(Ev::Failed(..)))) => 2,
-                                        Some((CallResult::Err(_), _)) => 3,
-                                        _ => 4,
-                                    }
-                                }
-                            };
-                            r.distinct.insert(hash_of(&(shape, kind, libtap::decodes(&b2), outcome)));
-                            for (k, d) in found {
-                                if r.violations.len() < 8 {
-                                    r.violations.push((viol("C03", k, st.idx, d), e2.clone()));
-                                }
+                        };
+                        r.distinct.insert(hash_of(&(c.shape, kind, libtap::decodes(&b2), outcome)));
+                        for (k, d) in found {
+                            if r.violations.len() < 8 {
+                                r.violations.push((viol("C03", k, c.step, d), e2.clone()));
                             }
                         }
                     }
@@ -1131,8 +1211,8 @@ pub fn extra_c03(spec: &PropSpec, args: &CheckArgs) -> ExtraResult {
                 let mut m = merged.lock().unwrap();
                 m.evaluations += r.evaluations;
                 m.distinct.extend(r.distinct);
-                for (k, c) in r.counters {
-                    *m.counters.entry(k).or_insert(0) += c;
+                for (k, cnt) in r.counters {
+                    *m.counters.entry(k).or_insert(0) += cnt;
                 }
                 m.violations.extend(r.violations);
             });
